@@ -84,7 +84,7 @@ class TooLong(Exception):
     pass
 
 
-def record_path(model, X, y=None, script=None, frac=None, max_calls=4000, call=None, ids="column", **pargs):
+def record_path(model, X, y=None, script=None, frac=None, max_calls=4000, call=None, ids="match", **pargs):
     """Run model.path(X, y, **pargs) under the recorders.
     script: list of integer scores / None(NaN) for the scripted GEMINI already installed as model.gemini (exact mode).
     frac: dict(keep=(N,D), esf=(N,D)) the rational values of keep_threshold / early_stopping_factor actually passed.
